@@ -28,6 +28,9 @@ fn hash_of<K: KeyT>(hb: &HB, k: u32) -> u64 {
 impl<K: KeyT, V: ValT> World<K, V> {
     /// Executes one operation on the real code; returns the event.
     pub fn exec(&mut self, op: &Value) -> Value {
+        // live zero-sized keys / values *before* the call: every temporary of the previous call is gone,
+        // so these are exactly the objects the maps hold (judged against the previous snapshot)
+        self.zl0 = crate::elem::zst_live();
         let name = op["op"].as_str().unwrap_or("?").to_string();
         let s = op.get("s").and_then(|x| x.as_u64()).unwrap_or(0) as usize;
         // optional fault injection: {"fault":{"kind":0..3,"at":n}}
@@ -391,6 +394,9 @@ impl<K: KeyT, V: ValT> World<K, V> {
                             }
                         }
                         if end == "forget" {
+                            if K::NAME == "zst" {
+                                crate::elem::zst_leak(it.len(), it.len());
+                            }
                             std::mem::forget(it);
                         } else {
                             drop(it);
@@ -428,6 +434,9 @@ impl<K: KeyT, V: ValT> World<K, V> {
                             }
                         }
                         if end == "forget" {
+                            if K::NAME == "zst" {
+                                crate::elem::zst_leak(it.len(), 0);
+                            }
                             std::mem::forget(it);
                         } else {
                             drop(it);
@@ -746,11 +755,26 @@ impl<K: KeyT, V: ValT> World<K, V> {
                     for (k, v) in &objs {
                         ids.push(json!([k.k(), v.v(), k.id(), v.id()]));
                     }
+                    // "via": which inserting API fills the room (C04's sentence does not say `insert`)
+                    let via = op.get("via").and_then(|x| x.as_str()).unwrap_or("insert").to_string();
                     let map = self.map(s);
                     measure(|| {
                         armf();
-                        for (k, v) in objs {
-                            map.insert(k, v);
+                        for (i, (k, v)) in objs.into_iter().enumerate() {
+                            match (via.as_str(), i % 2) {
+                                ("entry", _) | ("mixed", 0) => {
+                                    map.entry(k).or_insert(v);
+                                }
+                                ("raw", _) => match map.raw_entry_mut().from_key(&k) {
+                                    RawEntryMut::Vacant(ve) => {
+                                        ve.insert(k, v);
+                                    }
+                                    RawEntryMut::Occupied(_) => unreachable!("probe key present"),
+                                },
+                                _ => {
+                                    map.insert(k, v);
+                                }
+                            }
                             mincap = mincap.min(map.capacity());
                         }
                     })
@@ -759,11 +783,16 @@ impl<K: KeyT, V: ValT> World<K, V> {
                     for k in &objs {
                         ids.push(json!([k.k(), 0, k.id(), 0]));
                     }
+                    let via = op.get("via").and_then(|x| x.as_str()).unwrap_or("insert").to_string();
                     let set = self.set(s);
                     measure(|| {
                         armf();
                         for k in objs {
-                            set.insert(k);
+                            if via == "insert" {
+                                set.insert(k);
+                            } else {
+                                set.get_or_insert(k);
+                            }
                             mincap = mincap.min(set.capacity());
                         }
                     })
